@@ -47,7 +47,13 @@ type Ctx struct {
 	Repo     string
 }
 
-func (c *Ctx) Thorough() bool { return c.Tier == "thorough" }
+// promoted: properties whose thorough enumeration is cheap enough (well under a
+// minute on 16 cores) to be what the quick tier runs as well.
+var promoted = map[string]bool{"C05": true, "C06": true, "C07": true, "C08": true, "C13": true, "C17": true, "C18": true, "C19": true}
+
+// Thorough reports whether the deep enumeration is to be run: always in the
+// thorough tier, and in the quick tier for the promoted properties.
+func (c *Ctx) Thorough() bool { return c.Tier == "thorough" || promoted[c.Prop] }
 
 // Mine reports whether work item i belongs to this shard.
 func (c *Ctx) Mine(i int) bool { return c.NShards <= 1 || i%c.NShards == c.Shard }
